@@ -16,7 +16,23 @@ REPO = os.path.abspath(os.environ.get('VERIF_REPO', '/repo'))
 
 def load():
     with open(os.path.join(VERIF, 'selftest', 'mutants.json')) as fh:
-        return json.load(fh)
+        ms = json.load(fh)
+    # independently seeded changes (seeded/<id>/patch.diff) are replayed as mutants too
+    sd = os.path.join(VERIF, 'seeded')
+    if os.path.isdir(sd):
+        for d in sorted(os.listdir(sd)):
+            mp = os.path.join(sd, d, 'meta.json')
+            pp = os.path.join(sd, d, 'patch.diff')
+            if not (os.path.exists(mp) and os.path.exists(pp)):
+                continue
+            meta = json.load(open(mp))
+            det = meta.get('detected_by', '')
+            import re as _re
+            m = _re.search(r'(C\d\d) (R\d+\.\d+)', det.split('->')[-1])
+            if not m:
+                continue
+            ms.append({'id': 'seeded-' + d, 'property': m.group(1), 'rule': m.group(2), 'patch': pp, 'desc': meta.get('summary', '')[:120], 'edits': []})
+    return ms
 
 
 def scratch_copy():
@@ -28,6 +44,11 @@ def scratch_copy():
 
 def apply(dst, m):
     """returns None when applied, or a reason string when the edit no longer applies"""
+    if m.get('patch'):
+        r = subprocess.run(['patch', '-p1', '-s', '-i', m['patch']], cwd=dst, capture_output=True, text=True)
+        if r.returncode != 0:
+            return 'patch does not apply: ' + (r.stdout + r.stderr)[:120]
+        return None
     for ed in m['edits']:
         p = os.path.join(dst, ed['file'])
         if not os.path.exists(p):
